@@ -788,7 +788,7 @@ func init() {
 		Title: "Untyped constant expressions are exact and agree with Go's constant arithmetic",
 		Explanation: "Decided: P1 operator pass-through: BinaryExprUntyped / ShiftUntyped / UnaryExprUntyped hand go/constant the node's own operator (through tokenWithoutAssign) with the operands in order; untyped division truncates (QUO_ASSIGN) exactly when both operands are of Int or Rune kind; && / || compute the matching boolean operation; the compound-assignment token tables pair each X_ASSIGN with X; " +
 			"EX1 exactness: a constant.Value reaches an integer-category result only through exact extraction, never through constant.Float64Val, and every conversion to an integer kind is followed by a convert-back-and-compare overflow / truncation check; K1 every path of every function of base/untyped that uses constant.Int64Val / Uint64Val is enumerated (exact flag and target category concretely) and the first result, undefined when the flag is false, never flows into a result of the function on such a path; K2 such a 64-bit result is never narrowed outside a two-sided range check; F1 a constant converted to *big.Int / *big.Rat / *big.Float is copied into a fresh local at each execution and the compile-time value never escapes the closure. " +
-			"Not decided: go/constant's arithmetic, precision beyond what go/constant keeps, exactness of *big.Float conversions.",
+			"K7 real() and imag() of an untyped constant are built with the constant kind untyped.Float, not a kind computed from the value (found F57). Not decided: go/constant's arithmetic, precision beyond what go/constant keeps, exactness of *big.Float conversions.",
 		Assumptions: []string{"go/constant implements exact constant arithmetic"},
 		Rules: []func(*Ctx){func(c *Ctx) {
 			ruleUntypedOperators(c, "P1-operator-passthrough")
@@ -798,8 +798,10 @@ func init() {
 			ruleFreshBigValues(c, "F1-fresh-big")
 			ruleUnaryKeepsKind(c, "K5-unary-keeps-kind")
 			ruleConstRepetitionPairing(c, "K6-const-repetition-pairing")
+			ruleRealImagUntypedKind(c, "K7-real-imag-untyped-kind")
 		}},
 		Mutants: []Mutant{
+			{Name: "real-of-untyped-takes-representation-kind", File: "fast/builtin.go", Old: "arg = untyped.MakeLit(untyped.Float, constant.ToFloat(val), &c.Universe.BasicTypes)", New: "arg = untyped.MakeLit(untyped.MakeKind(val.Kind()), val, &c.Universe.BasicTypes)"},
 			{Name: "unary-result-kind-not-from-operand", File: "fast/unary.go", Old: "return c.exprUntypedLit(xlit.Kind, ret)", New: "return c.exprUntypedLit(UntypedLit{Val: ret}.Kind, ret)"},
 			{Name: "const-repetition-keeps-earlier-type", File: "fast/declaration.go", Old: "\t\t\t\tdefaultType = valueSpec.Type\n", New: "\t\t\t\tif valueSpec.Type != nil {\n\t\t\t\t\tdefaultType = valueSpec.Type\n\t\t\t\t}\n"},
 			{Name: "exact-float-path-for-signed-targets-only", File: "base/untyped/lit.go", Old: "\t\tif cat == r.Int || cat == r.Uint {\n\t\t\t// an integer-valued float constant", New: "\t\tif cat == r.Int {\n\t\t\t// an integer-valued float constant"},
